@@ -210,3 +210,42 @@ Proof.
   cbn [extract_rate]. rewrite Hm. unfold grp_int at 1 4. rewrite Hp. cbn [of_opt bind].
   rewrite Z.eqb_refl. reflexivity.
 Qed.
+
+(* ---- install.py as tables: what the well-formedness predicates (checked by the kernel on the tables regenerated from the
+   source, coq/Gen/C08/Layout.v) mean ------------------------------------------------------------------------------- *)
+Theorem dispatch_sound : forall t, dispatch_ok t = true ->
+  (forall k f, In (k, f) t -> f = S_ "install_" ++ k) /\
+  (forall k, In k adf_kinds -> List.length (filter (fun kf => streqb k (fst kf)) t) = 1%nat).
+Proof.
+  intros t H. unfold dispatch_ok in H. apply andb_prop in H. destruct H as [H H3]. apply andb_prop in H. destruct H as [H1 H2].
+  split.
+  - intros k f Hin. rewrite forallb_forall in H1. specialize (H1 (k, f) Hin). cbn [fst snd] in H1.
+    apply streqb_eq in H1. exact H1.
+  - intros k Hk. rewrite forallb_forall in H2. specialize (H2 k Hk). apply Nat.eqb_eq in H2. exact H2.
+Qed.
+
+Theorem wiring_sound : forall t, wiring_ok t = true ->
+  forall fn ft upd, In (fn, (ft, upd)) t -> fn = S_ "install_adf11" ++ ft /\ In (ft, upd) adf11_updates.
+Proof.
+  intros t H fn ft upd Hin. unfold wiring_ok in H. apply andb_prop in H. destruct H as [H _]. apply andb_prop in H. destruct H as [H1 _].
+  rewrite forallb_forall in H1. specialize (H1 _ Hin). cbn beta iota in H1.
+  apply andb_prop in H1. destruct H1 as [Ha Hb]. apply streqb_eq in Ha. split; [exact Ha|].
+  apply existsb_exists in Hb. destruct Hb as ([a b] & Hin2 & Hab). cbn [fst snd] in Hab.
+  apply andb_prop in Hab. destruct Hab as [E1 E2]. apply streqb_eq in E1. apply streqb_eq in E2. subst. exact Hin2.
+Qed.
+
+(* thermal-CX 3-D table: entry [i][k] of the flattened (cell, donor temperature) array is the 2-D value of cell i, for both
+   donor temperatures *)
+Theorem thermalcx_axis : forall rate i k, (i < List.length rate)%nat -> (k < List.length thermalcx_td)%nat ->
+  nth (i * List.length thermalcx_td + k) (flat_map (fun r => map (fun _ => r) thermalcx_td) rate) 0%Q = nth i rate 0%Q.
+Proof.
+  induction rate as [|r rate IH]; intros i k Hi Hk; [cbn in Hi; lia|].
+  cbn [flat_map]. destruct i as [|i].
+  - cbn [mult plus nth]. rewrite app_nth1 by (rewrite map_length; exact Hk).
+    rewrite (nth_indep _ 0%Q ((fun _ => r) 0%Q)) by (rewrite map_length; exact Hk). exact (map_nth (fun _ : Q => r) thermalcx_td 0%Q k).
+  - replace (S i * List.length thermalcx_td + k)%nat with (List.length thermalcx_td + (i * List.length thermalcx_td + k))%nat by lia.
+    rewrite app_nth2 by (rewrite map_length; lia). rewrite map_length.
+    replace (List.length thermalcx_td + (i * List.length thermalcx_td + k) - List.length thermalcx_td)%nat
+      with (i * List.length thermalcx_td + k)%nat by lia.
+    cbn [nth]. apply IH; [cbn in Hi; lia | exact Hk].
+Qed.
